@@ -116,6 +116,8 @@ def main(run: Run):
     run.functions["amaranth_soc.gpio.Peripheral.elaborate"] = "per-configuration (bounded: pin count, widths, input_stages); flattened with the real bridge/registers/field actions"
     run.functions["amaranth_soc.gpio.Peripheral.Output._FieldAction.elaborate"] = "per-configuration, inside the flattened peripheral"
     run_configs(run, __name__, cfgs, must_accept=must_accept)
+    from . import ctor_l1
+    ctor_l1.add_to(run, ['gpio_init'])
     # L1: the statements issued for one arbitrary pin of any pin count, with a synchroniser of any depth (recording hardware stubs)
     from ..pyvc.driver import discharge_all
     from ..pyvc.engine import Unsupported
